@@ -19,12 +19,16 @@ LEVEL_NOTE = ("Trusted: Coq kernel + vm_compute; go2coq LockGen (abstract interp
               "C07_contract_sites is a FRAGMENT theorem: each thread runs the plan of ONE call site (start of the handler to the call, the call, release); that a whole "
               "handler run is a succession of such fragments is not proved. C07_open_once is a hand model tied by open_ok (Open, the test and the update of opened inside openMu) "
               "and by the battery (open|open on one fid, Opens <= 1). The property's 'random concurrent workloads with an overlap monitor' run in ./check C16 (same monitor "
-              "predicate LockCases.log_ok), not in ./check C07. 'Same path => same node' is the obligation C07_new_refs_ok plus the battery's created/attached fids; that "
-              "pathNodeFor returns one node per (node, name) is read from path_tree.go by hand (assumption).")
+              "predicate LockCases.log_ok), not in ./check C07. 'Same path => same node': C07_new_refs_ok (every fidRef literal gets the node of its File) + C07_node_sources (generated: the only "
+              "struct fields holding path nodes are Server.<root>, fidRef.pathNode, pathNode.childNodes; pathNodes are constructed only in NewServer and in pathNodeFor, "
+              "whose store to childNodes and its re-check read hold childMu for writing) + the model theorem C07_same_path_same_node (Locks/NodeId.v, hand model of "
+              "pathNodeFor as atomic lookup-or-make; that re-check and store sit in ONE critical section is not checked, only that both hold the write lock) + the battery's "
+              "cross-connection, created-fid and two-attach-roots relations (concrete overlaps).")
 DESIGN_REF = "6/C07"
 ASSUMPTIONS = [
     "sync.Mutex/RWMutex provide mutual exclusion; defer runs on return and panic",
-    "symbolic node names denote path nodes consistently (ref.parent.pathNode is the parent of ref.pathNode; a parent fidRef is never an xattr fidRef)",
+    "symbolic node names denote path nodes consistently (ref.parent.pathNode is the parent of ref.pathNode; a parent fidRef is never an xattr fidRef); "
+    "path nodes are shared per (directory node, name) as long as the entry is not removed: obligation C07_node_sources + model theorem C07_same_path_same_node",
     "a failed File.Open leaves the fid unopened and may be retried by a later Tlopen (stated in C07_open_once)",
 ]
 TRUSTED_BASE = [
@@ -32,7 +36,8 @@ TRUSTED_BASE = [
     "axioms: none (Print Assumptions: closed under the global context)",
     "go2coq LockGen (tools/go2coq/lockgen.go, lockgen_interp.go): plans and lock sets at each site, fidRef constructions, documented classes parsed from file.go",
     "harness: gated monitoring backend (harness/p9/vhgate_backend_test.go), rendezvous battery (c07_rendezvous_test.go), p9 client and in-package sendRecv used as driver",
-    "white-box TryLock/TryRLock probes of Server.renameMu, pathNode.opMu/childMu from inside the gated call (vhgate_backend_test.go): a rename of those fields breaks the harness build",
+    "white-box TryLock/TryRLock probes of Server.renameMu, pathNode.opMu/childMu/childNodes from inside the gated call (vhgate_backend_test.go): a rename of those fields breaks the harness build; "
+    "the tree root is found by type (the *pathNode field of Server), a server without one only makes the probes inconclusive",
     "props/C07.py rq()/to_case(): translation of observations to Coq cases (binding of T-message fields to paths, receiver role -> symbolic node)",
 ]
 
